@@ -1,4 +1,4 @@
-import CalicoVerif.Proofs.C36Query
+import CalicoVerif.Proofs.C36Desc
 /-!
 C36 helper lemmas, part 5: the plain association-list map and the refinement
 of histories (`foldl` of `Update`/`Delete`) to it.
